@@ -4,11 +4,14 @@ TEXTS = {
   "level": "Machine-checked Lean 4 theorems state that the model's attack sets equal the coordinate-stepping spec for all 64 squares "
            "(leapers: knight, king, both pawn colours; sliders: all 2^64 occupancies, via per-square kernel-checked magic-table obligations over the constants "
            "regenerated from the source on every run). The model is tied to the code by a correspondence that is complete on the behaviour-determining domain: "
-           "all rays, all leaper entries, all 107,648 (square, relevant subset) lookups (thorough: all ~1.1M line subsets) plus random occupancies.",
+           "all rays, all leaper entries, all 107,648 (square, relevant subset) lookups (thorough: all ~1.1M line subsets) plus random occupancies. "
+           "In addition the leaper tables, the ray table, shift_east / shift_west / trim_edges, the slider masks and the slow ray walks are TRANSLATED from the Rust expressions on every run "
+           "(tools/gen_translate.py) and proved equal to the model by the kernel (every square / direction / colour; the slow walks for all 2^64 occupancies), together with the side conditions "
+           "under which the Rust arithmetic and indexing cannot overflow or panic: the *_source_* theorems are about definitions regenerated from the source text.",
   "note": "Trusted: Lean kernel (axioms propext, Quot.sound, Classical.choice only), gen_constants.py regex translator for MAGICS/INDEX_BITS/table sizes/file-rank masks, "
           "harness + driver, CPU bit-scan/popcount intrinsics modelled by their definitions. The hand-written model functions (ray formulas, slow walk, fill, lookup) are "
           "validated against the implementation on every enumerated lookup, not verified from the Rust text.",
-  "technique": "Lean 4 proof (decide +kernel table obligations lifted by lemmas) + exhaustive model/implementation correspondence",
+  "technique": "Lean 4 proof (decide +kernel table obligations lifted by lemmas; initialisers and slow walks translated from the Rust source and kernel-checked against the model) + exhaustive model/implementation correspondence",
  },
  "C05": {
   "level": "Lean theorems over the Zobrist table regenerated from the implementation on every run: for ALL positions, changing exactly one component "
@@ -22,9 +25,10 @@ TEXTS = {
  "C17": {
   "level": "Lean theorems for ALL boards: evaluate(mirror b) = evaluate b unconditionally (identical saturating computations on identical piece counts, via popcount(bswap x) = popcount x), "
            "evaluate(swapTurn b) = -evaluate b under the material bound, with a kernel-checked counter-example showing the bound is needed. Model tied to the code by comparing "
-           "the evaluation of every walked position, of its mirror image and of its side-swapped twin (both built through FEN) with the model and with each other.",
+           "the evaluation of every walked position, of its mirror image and of its side-swapped twin (both built through FEN) with the model and with each other; "
+           "the body of SimpleEvaluator::evaluate is also translated from the Rust text on every run and proved equal to the model for all boards (eval_source_eq, by rfl), so eval_source_mirror / eval_source_swap are about the regenerated definition.",
   "note": "Trusted: Lean kernel, piece values/loop order regenerated from simple_evaluator.rs by regex, harness/driver. The i16 wrap of count*value for > 36 queens is modelled (wrapI16) but outside the claim.",
-  "technique": "Lean 4 proof (bit-permutation lemma, saturating-arithmetic range lemmas) + differential correspondence",
+  "technique": "Lean 4 proof (bit-permutation lemma, saturating-arithmetic range lemmas; evaluator translated from the source, equality by rfl) + differential correspondence",
  },
  "C02": {
   "level": "Lean theorems for EVERY well-formed board and EVERY generated (pseudo-legal) move: unmake(make(b, m)) = b as a structural equality of the whole state "
@@ -100,7 +104,7 @@ TEXTS = {
   "level": "Lean refinement theorems: for every legal-game position and every generated move the new board stands for exactly Rules.apply of the old one (placement, side, the four rights, en-passant file, "
            "half-move clock, full-move number); a legal move leads to a legal-game position; by induction the statement holds for legal games of any length from the start position (proved legal) or any "
            "consistent FEN (C07); the repetition record is exactly the list of keys of the earlier positions. Tied to the code by the walk stream against the independent rules state machine.",
-  "note": "Trusted: Lean kernel, the textbook state machine Rules.apply (spec), model (validated on every explored position), harness/driver. Counters are Nat in the model (u16 in the code).",
+  "note": "Trusted: Lean kernel, the textbook state machine Rules.apply (spec), model (validated on every explored position), harness/driver. Counters are Nat in the model (u16 in the code); counters_fit_u16 proves that no u16 addition can wrap within 65,535 minus the starting value plies.",
   "technique": "Lean 4 proof (one-step refinement by move kind + induction over games) + differential correspondence against an independent state machine",
  },
  "C08": {
